@@ -121,8 +121,23 @@ def gen_run(exe, rng, tier):
 
 
 def gen(rng, tier):
-    return []
+    """the test by which a datagram is attributed to an existing UDP association (udp.c addr_equal): two sources that differ in
+    exactly one bit of the address (every bit position, IPv4 and IPv6) or of the port, and equal ones"""
+    from rspcheck import Case
+    cs = []
+    for fam, width in ((4, 4), (6, 16)):
+        for _b in range(2 if tier == "quick" else 8):
+            base = bytes(rng.randrange(256) for _ in range(width))
+            port = rng.randrange(1, 65536)
+            cs.append(Case(f"addreq {fam} {base.hex()} {port} {base.hex()} {port}", kind="addreq", diff=0))
+            for bit in range(width * 8):
+                other = bytearray(base)
+                other[bit // 8] ^= 0x80 >> (bit % 8)
+                cs.append(Case(f"addreq {fam} {base.hex()} {port} {bytes(other).hex()} {port}", kind="addreq", diff=1))
+            for bit in range(16):
+                cs.append(Case(f"addreq {fam} {base.hex()} {port} {base.hex()} {port ^ (1 << bit)}", kind="addreq", diff=1))
+    return cs
 
 
 def nontrivial(c):
-    return c.tags.get("dup", 0) >= 1
+    return c.tags.get("dup", 0) >= 1 or c.tags.get("diff", 0) >= 1
